@@ -83,9 +83,9 @@ def value_src(v):
     raise ValueError(v)
 
 
-def _params_src(m):
+def _params_src(m, self_flag=False):
     parts = []
-    if m.get("self"):
+    if m.get("self") or self_flag:
         parts.append("self")
     kw_started = False
     for name, kind, ann, has_default in m["params"]:
@@ -101,7 +101,7 @@ def _params_src(m):
     # positional-only marker
     npo = sum(1 for p in m["params"] if p[1] == "po")
     if npo:
-        idx = npo + (1 if m.get("self") else 0)
+        idx = npo + (1 if (m.get("self") or self_flag) else 0)
         parts.insert(idx, "/")
     return ", ".join(parts)
 
@@ -112,11 +112,13 @@ def _passargs(m, optional_guard=False):
     return ", ".join(pos + [f"{k}={k}" for k in kws])
 
 
-def method_src(mid, m):
-    lines = [f"def {mid}({_params_src(m)}):"]
+def method_src(mid, m, self_flag=False):
+    lines = [f"def {mid}({_params_src(m, self_flag)}):"]
     lines.append(f"    LOG.append({mid!r})")
     body = m["body"]
     k = body[0]
+    if self_flag and k == "fnext":
+        k = "next"  # f.next() has no notion of self
     first = m["params"][0][0] if m["params"] else None
     rest = [p[0] for p in m["params"][1:] if p[1] in ("pos", "po") and not p[3]]
     if k == "leaf":
@@ -238,8 +240,9 @@ def render(spec):
             f"    HOOK({d['name']!r})\n"
             f"    return getattr(v, 'tag', 0) % {d['mod']} == {d['eq']}\n"
         )
+    self_flag = bool(spec.get("meta", {}).get("self"))
     for mid, m in spec["methods"].items():
-        out.append(method_src(mid, m))
+        out.append(method_src(mid, m, self_flag))
     return "\n".join(out)
 
 
@@ -372,7 +375,11 @@ class World:
         """An instance of a class that has the function as an overloaded method."""
         if fname not in self.bound_cls:
             ov = self.funcs[fname]
-            cls = type(f"Holder_{fname}", (), {"meth": ov.dispatch})
+            flavour = self.spec.get("meta", {}).get("self")
+            # "ovld": the Ovld object itself is the class attribute (goes through Ovld.__get__);
+            # otherwise the dispatch function, as the @ovld decorator leaves it in a class body
+            attr = ov if flavour == "ovld" else ov.dispatch
+            cls = type(f"Holder_{fname}", (), {"meth": attr})
             self.bound_cls[fname] = cls
         return self.bound_cls[fname]()
 
@@ -384,6 +391,9 @@ class World:
         kind = c.get("kind", "call")
         self.log.take()
         try:
+            if kind == "call" and self.spec.get("meta", {}).get("self"):
+                r = self.holder(fname).meth(*args, **kw)
+                return ["ok", self.log.take(), jsonable(r)]
             if kind == "call":
                 r = ov.dispatch(*args, **kw)
                 return ["ok", self.log.take(), jsonable(r)]
